@@ -268,6 +268,20 @@ func Flush() {
 	}
 }
 
+// Crumb leaves the case being executed on disk, so that a Go fatal error (stack exhaustion, concurrent
+// map write), which cannot be recovered and kills the shard process, still yields a replayable input.
+func Crumb(check string, c interface{}) {
+	b, err := json.Marshal(map[string]interface{}{"property": PropOf(check), "check": check, "sig": "fatal", "detail": "case executing when the process died", "case": c})
+	if err != nil {
+		return
+	}
+	os.MkdirAll(workDir(), 0o755)
+	os.WriteFile(filepath.Join(workDir(), fmt.Sprintf("crumb.%d.json", Shard())), b, 0o644)
+}
+
+// ClearCrumb removes the breadcrumb after the case returned.
+func ClearCrumb() { os.Remove(filepath.Join(workDir(), fmt.Sprintf("crumb.%d.json", Shard()))) }
+
 // Guard runs f and converts a panic into a violation signature derived from
 // the innermost gosaml2 frame, so that a crash is reported like any other finding.
 func Guard(f func()) (pv *Violation) {
